@@ -23,7 +23,7 @@ pub trait SObj {
 macro_rules! sobj_common {
     () => {
         fn process(&mut self, i: &[u8], outlen: usize) -> Vec<u8> {
-            let mut o = vec![0u8; outlen];
+            let mut o = dirty(outlen);
             self.0.process(i, &mut o);
             o
         }
@@ -206,7 +206,7 @@ fn new_stream(variant: &str, rounds: usize, key: &[u8], nonce: &[u8]) -> Box<dyn
             macro_rules! mk { ($r:literal) => {{
                 let mut h = PortableEngine::<$r>::init(key, &nonce[0..16]);
                 h.rounds();
-                let mut sub = [0u8; 32];
+                let mut sub = [0x5Au8; 32];
                 h.output_ad_bytes(&mut sub);
                 Box::new(Portable::<$r> { st: PortableEngine::init(&sub, &nonce[16..24]), out: [0; 64], off: 64, wide: false }) as Box<dyn SObj>
             }}; }
@@ -420,7 +420,7 @@ pub fn run(op: &str, a: &[&str]) -> Vec<String> {
                 let mut s = st.clone();
                 s.rounds();
                 s.add_back(&st);
-                let mut o = [0u8; 64];
+                let mut o = [0xA5u8; 64];
                 s.output_bytes(&mut o);
                 o
             }}; }
@@ -439,7 +439,7 @@ pub fn run(op: &str, a: &[&str]) -> Vec<String> {
             macro_rules! mk { ($r:literal) => {{
                 let mut s = PortableEngine::<$r>::init(&key, &nonce);
                 s.rounds();
-                let mut o = [0u8; 32];
+                let mut o = [0x5Au8; 32];
                 s.output_ad_bytes(&mut o);
                 o
             }}; }
